@@ -6,6 +6,7 @@ import (
 	"flag"
 	"fmt"
 	"os"
+	"runtime"
 	"runtime/debug"
 	"strconv"
 	"time"
@@ -33,6 +34,24 @@ func main() {
 		os.Exit(2)
 	}
 	t0 := time.Now()
+	// watchdog: a check that needs more than this is broken, not slow — stop before the machine is exhausted
+	go func() {
+		limit := uint64(8) << 30
+		maxWall := 10 * time.Minute
+		if *tier == "thorough" {
+			limit = uint64(24) << 30
+			maxWall = 60 * time.Minute
+		}
+		var ms runtime.MemStats
+		for {
+			time.Sleep(250 * time.Millisecond)
+			runtime.ReadMemStats(&ms)
+			if ms.HeapAlloc > limit || time.Since(t0) > maxWall {
+				fmt.Printf("INFRA: resource budget exceeded while checking %s (heap %d MB, %s): the check is broken on this tree\n", *prop, ms.HeapAlloc>>20, time.Since(t0).Round(time.Second))
+				os.Exit(2)
+			}
+		}
+	}()
 	code := 2
 	func() {
 		defer func() {
@@ -50,6 +69,9 @@ func main() {
 		p.Tier = *tier
 		c := an.NewCtx(*prop, p)
 		rule(c)
+		for _, where := range p.BudgetExhausted {
+			c.Und(*prop+".0", "explorer:path-budget("+where+")", 0, "the path exploration of %s exceeded its budget: the obligations decided on its traces are undecided (the code has more feasible-looking paths than the analysis enumerates)", where)
+		}
 		extra := map[string]interface{}{}
 		if *tier == "thorough" {
 			rules.VerifDir = *verif
